@@ -217,6 +217,7 @@ def c05(tier):
     P = core.load(tier=tier, extra_units=selftest.UNITS)
     kb.kb1(P, C)
     kb.kb2(P, C)
+    kb.kb2b(P, C)
     kb.kb3(P, C)
     n = kb.kb6(P, C)
     C.extra["index_sites"] = kb.kb5(P, C)
@@ -273,6 +274,8 @@ def c02(tier):
               assumptions=["bspline_deriv (recursive reference) is taken as the definition for derivative orders >= 2"])
     P = core.load(tier=tier, extra_units=selftest.UNITS)
     kb.kb4(P, C)
+    # derivatives in the margins use the same re-indexing as values: both margins must be reachable for every admitted table
+    kb.kb2b(P, C)
     dp.cl3(P, C)
     dp.cl4(P, C)
     dp.cl6(P, C)
@@ -393,6 +396,7 @@ def c06(tier):
     ax.ks1(P, C)
     ax.uw3(P, C)
     ax.km2(P, C)
+    ax.fs5b(P, C)
     ax.fs4(P, C)
     C.extra["units"] = sorted(P.units.keys())
     return C.finish()
@@ -436,7 +440,32 @@ def c09(tier):
     return C.finish()
 
 
-TABLE = {"C09": c09, "C17": c17, "C06": c06, "C19": c19, "C14": c14, "C10": c10, "C11": c11, "C03": c03, "C02": c02, "C05": c05, "C04": c04, "C16": c16, "C15": c15, "C18": c18, "C08": c08, "C12": c12, "C20": c20, "C13": c13, "C07": c07}
+def c01(tier):
+    C = Check("C01", tier,
+              explanation="The identity 'value = sum of coefficient times product of Cox-de Boor basis functions' is numerical and is NOT decided. "
+              "Decided are its structural prerequisites, each a necessary condition of the statement: the margin re-indexing of the local basis "
+              "is bounded and entered from the boundary centres (KB-2) and BOTH margins are reachable for every admitted knot-vector length, in "
+              "particular the shortest one, nknots = 2*order+2, where the two boundary centres coincide (KB-2b); every kernel writes slot 0 of "
+              "its outputs on every path (KB-4); the centre handed to the kernels brackets the point, with the clamp and last-interval "
+              "conventions of the statement (SC-1..3); every entry point passes the knots, count, coordinate, centre and order of the same "
+              "dimension to the kernel (CL-4); every optimised core is the generic core under its defining substitutions (CL-1) and the "
+              "dispatch table selects the core its labels require (DP).",
+              assumptions=["bsplvb/bsplvb_simple implement the de Boor recurrence (numerical, not analysed)",
+                           "tables are well-formed (C07)"])
+    P = core.load(tier=tier, extra_units=selftest.UNITS)
+    kb.kb2(P, C)
+    kb.kb2b(P, C)
+    kb.kb4(P, C)
+    kb.sc123(P, C)
+    dp.cl4(P, C)
+    dp.cl1(P, C)
+    dp.dp(P, C)
+    C.extra["units"] = sorted(P.units.keys())
+    C.extra["not_decided"] = ["the de Boor recurrence itself", "rounding", "the coefficient walk's index arithmetic beyond clone agreement"]
+    return C.finish()
+
+
+TABLE = {"C01": c01, "C09": c09, "C17": c17, "C06": c06, "C19": c19, "C14": c14, "C10": c10, "C11": c11, "C03": c03, "C02": c02, "C05": c05, "C04": c04, "C16": c16, "C15": c15, "C18": c18, "C08": c08, "C12": c12, "C20": c20, "C13": c13, "C07": c07}
 
 
 def run(prop, tier):
